@@ -97,6 +97,11 @@ func InterfaceFixture() (*fedlab.Config, *fedlab.Universe) {
 	nodeFields := func() []*fedlab.FieldDef {
 		return []*fedlab.FieldDef{idf(), {Name: "title", Type: str("String")}, {Name: "secret", Type: str("String")}}
 	}
+	// object- and list-valued interface fields; User.profile is covariant (UserProfile implements Profile)
+	profFields := func() []*fedlab.FieldDef {
+		return []*fedlab.FieldDef{{Name: "bio", Type: str("String")}, {Name: "psecret", Type: str("String")}}
+	}
+	links := func() *fedlab.FieldDef { return &fedlab.FieldDef{Name: "links", Type: fedlab.ListOf(str("Link"))} }
 	super := &fedlab.Schema{Query: "Query", Types: []*fedlab.TypeDef{
 		{Kind: fedlab.KObject, Name: "Query", Fields: []*fedlab.FieldDef{
 			{Name: "node", Type: str("Node")},
@@ -105,10 +110,16 @@ func InterfaceFixture() (*fedlab.Config, *fedlab.Universe) {
 			{Name: "product", Type: str("Product")},
 			{Name: "featured", Type: str("Product")},
 		}},
-		{Kind: fedlab.KInterface, Name: "Node", Fields: nodeFields()},
+		{Kind: fedlab.KInterface, Name: "Node", Fields: append(nodeFields(), &fedlab.FieldDef{Name: "profile", Type: str("Profile")}, links())},
+		{Kind: fedlab.KInterface, Name: "Profile", Fields: profFields()},
+		{Kind: fedlab.KObject, Name: "UserProfile", Implements: []string{"Profile"}, Fields: append(profFields(), &fedlab.FieldDef{Name: "rank", Type: str("String")})},
+		{Kind: fedlab.KObject, Name: "BasicProfile", Implements: []string{"Profile"}, Fields: profFields()},
+		{Kind: fedlab.KObject, Name: "Link", Fields: []*fedlab.FieldDef{{Name: "url", Type: str("String")}, {Name: "note", Type: str("String")}}},
 		{Kind: fedlab.KObject, Name: "User", Implements: []string{"Node"}, Fields: append(nodeFields(),
+			&fedlab.FieldDef{Name: "profile", Type: str("UserProfile")}, links(),
 			&fedlab.FieldDef{Name: "email", Type: str("String")}, &fedlab.FieldDef{Name: "notes", Type: str("String")})},
 		{Kind: fedlab.KObject, Name: "Product", Implements: []string{"Node"}, Fields: append(nodeFields(),
+			&fedlab.FieldDef{Name: "profile", Type: str("Profile")}, links(),
 			&fedlab.FieldDef{Name: "sku", Type: str("String")},
 			&fedlab.FieldDef{Name: "price", Type: str("String")},
 			&fedlab.FieldDef{Name: "ship", Type: str("String")},
@@ -117,9 +128,13 @@ func InterfaceFixture() (*fedlab.Config, *fedlab.Universe) {
 	cfg := &fedlab.Config{Super: super, Subgraphs: []*fedlab.Subgraph{
 		{Name: "home", Types: []*fedlab.SubType{
 			{Name: "Query", Fields: sf("node", "nodes", "featured")},
-			{Name: "Node", Fields: sf("id", "title", "secret")},
-			{Name: "User", Keys: []string{"id"}, Fields: sf("id", "title", "secret")},
-			{Name: "Product", Keys: []string{"id"}, Fields: sf("id", "title", "secret")},
+			{Name: "Node", Fields: sf("id", "title", "secret", "profile", "links")},
+			{Name: "Profile", Fields: sf("bio", "psecret")},
+			{Name: "UserProfile", Fields: sf("bio", "psecret", "rank")},
+			{Name: "BasicProfile", Fields: sf("bio", "psecret")},
+			{Name: "Link", Fields: sf("url", "note")},
+			{Name: "User", Keys: []string{"id"}, Fields: sf("id", "title", "secret", "profile", "links")},
+			{Name: "Product", Keys: []string{"id"}, Fields: sf("id", "title", "secret", "profile", "links")},
 		}},
 		{Name: "users", Types: []*fedlab.SubType{
 			{Name: "Query", Fields: sf("me")},
@@ -142,12 +157,46 @@ func InterfaceFixture() (*fedlab.Config, *fedlab.Universe) {
 		e.Fields = append(e.Fields, extra...)
 		return e
 	}
+	prof := func(t, k string, extra ...fedlab.FV) *fedlab.Entity {
+		e := &fedlab.Entity{Type: t, Key: k, Fields: []fedlab.FV{
+			{Name: "bio", Val: fsc(fedlab.JS("zq9." + t + "." + k + ".bio"))},
+			{Name: "psecret", Val: fsc(fedlab.JS("zq9." + t + "." + k + ".psecret"))},
+		}}
+		e.Fields = append(e.Fields, extra...)
+		return e
+	}
+	link := func(k string) *fedlab.Entity {
+		return &fedlab.Entity{Type: "Link", Key: k, Fields: []fedlab.FV{
+			{Name: "url", Val: fsc(fedlab.JS("zq9.Link." + k + ".url"))}, {Name: "note", Val: fsc(fedlab.JS("zq9.Link." + k + ".note"))}}}
+	}
+	pl := func(profType, profKey string, linkKeys ...string) []fedlab.FV {
+		var ls []*fedlab.FVal
+		for _, k := range linkKeys {
+			ls = append(ls, fref("Link", k))
+		}
+		return []fedlab.FV{{Name: "profile", Val: fref(profType, profKey)}, {Name: "links", Val: flst(ls...)}}
+	}
 	s := func(t, k, f string) fedlab.FV {
 		return fedlab.FV{Name: f, Val: fsc(fedlab.JS("zq9." + t + "." + k + "." + f))}
 	}
 	prod := func(k string) *fedlab.Entity {
-		return ent("Product", k, s("Product", k, "sku"), s("Product", k, "price"),
+		e := ent("Product", k, s("Product", k, "sku"), s("Product", k, "price"),
 			fedlab.FV{Name: "ship", Val: &fedlab.FVal{Kind: fedlab.FReq, Req: []string{"price"}}}, s("Product", k, "label"))
+		if k == "p1" {
+			e.Fields = append(e.Fields, pl("BasicProfile", "bp1", "l2")...)
+		} else {
+			e.Fields = append(e.Fields, pl("UserProfile", "up2", "l1", "l3")...)
+		}
+		return e
+	}
+	user := func(k string, extra ...fedlab.FV) *fedlab.Entity {
+		e := ent("User", k, extra...)
+		if k == "u1" {
+			e.Fields = append(e.Fields, pl("UserProfile", "up1", "l1", "l2")...)
+		} else {
+			e.Fields = append(e.Fields, pl("UserProfile", "up2")...)
+		}
+		return e
 	}
 	u := &fedlab.Universe{Ents: []*fedlab.Entity{
 		{Type: "Query", Key: "", Fields: []fedlab.FV{
@@ -157,9 +206,11 @@ func InterfaceFixture() (*fedlab.Config, *fedlab.Universe) {
 			{Name: "product", Val: fref("Product", "p1")},
 			{Name: "featured", Val: fref("Product", "p2")},
 		}},
-		ent("User", "u1", s("User", "u1", "email"), s("User", "u1", "notes")),
-		ent("User", "u2", s("User", "u2", "email"), fedlab.FV{Name: "notes", Val: fsc(fedlab.JN())}),
+		user("u1", s("User", "u1", "email"), s("User", "u1", "notes")),
+		user("u2", s("User", "u2", "email"), fedlab.FV{Name: "notes", Val: fsc(fedlab.JN())}),
 		prod("p1"), prod("p2"),
+		prof("UserProfile", "up1", s("UserProfile", "up1", "rank")), prof("UserProfile", "up2", s("UserProfile", "up2", "rank")),
+		prof("BasicProfile", "bp1"), link("l1"), link("l2"), link("l3"),
 	}}
 	return cfg, u
 }
@@ -192,6 +243,16 @@ var InterfaceOps = []string{
 	`{ featured { ship } }`,
 	`{ featured { title ship price label sku } }`,
 	`{ featured { id label } me { id email } }`,
+	// 16.. protected OBJECT- and LIST-valued fields selected bare and under `... on T` on an abstract parent
+	`{ nodes { id profile { bio } ... on User { profile { bio } } } }`,
+	`{ nodes { ... on User { profile { bio rank } } profile { bio } title } }`,
+	`{ nodes { links { url } ... on User { links { url note } } title } }`,
+	`{ nodes { ... on Product { links { note } } links { url } } node { links { url } ... on User { links { note } } } }`,
+	`{ nodes { profile { bio } links { url } } me { profile { rank } links { note } } }`,
+	// 21.. the children of the merged parent sit under different (covariant) parent types
+	`{ nodes { profile { psecret } ... on User { profile { psecret } } } }`,
+	`{ nodes { profile { bio ... on UserProfile { psecret rank } } ... on User { profile { psecret } } } }`,
+	`{ node { profile { psecret bio } } me { profile { psecret } } }`,
 }
 
 func Fixtures() []Fixture {
@@ -204,6 +265,10 @@ func Fixtures() []Fixture {
 			{"Product.price", "Product.ship", "User.email", "Product.label"}, // entity-fetched, shareable
 			{"Query.nodes", "Query.node", "Query.me", "Query.product", "User.notes"},
 			{"Product.sku", "Product.title", "User.title", "Node.title", "User.notes"},
+			{"User.profile", "User.links"},                                                                   // 7: object / list valued, rule on the conditioned coordinate only
+			{"Node.profile", "User.profile", "Product.profile", "Node.links", "User.links", "Product.links"}, // 8: on all, decided independently
+			{"UserProfile.psecret"}, // 9: nested rule on the covariant child type only
+			{"Profile.psecret", "UserProfile.psecret", "BasicProfile.psecret", "UserProfile.rank"}, // 10
 		}},
 		{Name: "mut", Build: MutationFixture, Ops: MutationOps, Ps: [][]string{
 			{"Mutation.bump", "Mutation.wipe", "Mutation.purge"},
